@@ -137,6 +137,7 @@ abbrev bDelItem : Nat := 20     -- del d[k]            -> new dict   (KeyError u
 abbrev bMoveToEnd : Nat := 21   -- d.move_to_end(k)    -> new dict
 abbrev bPopFirst : Nat := 22    -- d.popitem(last=False) -> new dict (the popped pair is not used)
 abbrev bPair : Nat := 23        -- a two-field named tuple `T(a, b)`: `[a, b]`
+abbrev bSub : Nat := 24         -- a - b (ints)
 
 /-- interpreter state: locals, fields of `self`, the external world, the exception being handled (for bare `raise`),
 and a counter for fresh identities -/
@@ -206,6 +207,7 @@ def builtin {W : Type} (f : Nat) (args : List Val) (s : St W) : R W :=
       | none => .stuck)
   | 22, [.dict kv] => if kv.isEmpty then .stuck else .ok (.dict kv.tail) s
   | 23, [a, b] => .ok (.list [a, b]) s
+  | 24, [.int a, .int b] => .ok (.int (a - b)) s
   | 19, [.int _] => .ok (.bool true) s
   | 19, [.bool _] => .ok (.bool true) s
   | 19, [_] => .ok (.bool false) s
